@@ -24,6 +24,9 @@ def _frames(pl):
                                     "c2": [f"v{i}" for i in range(n)]})))
     out.append(("t5", pl.DataFrame({"c0": [f"r{i}a" for i in range(5)], "g": ["A", "A", "B", "B", "B"], "c1": [None, 1.5, 2.5, None, 4.5]})))
     out.append(("t12", pl.DataFrame({"g": ["A"] * 5 + [DIV] * 2 + ["B"] * 5, "c0": [f"r{i}" for i in range(12)], "c1": list(range(12))})))
+    # grouping column LAST, a leading column whose text wraps over several lines (row heights depend on measuring the right cells at the right widths)
+    long = "wrapping text that needs several lines in a narrow column, row "
+    out.append(("t8w", pl.DataFrame({"c0": [long + str(i) for i in range(8)], "c1": [f"v{i}" for i in range(8)], "g": ["A"] * 3 + ["B"] * 5})))
     return out
 
 
@@ -317,10 +320,35 @@ def check_rows_per_page(doc, rtf_text, parsed):
     if not isinstance(doc.rtf_body, list):
         for pi, _t in data_rows_in_order(doc, parsed):
             per_page[pi] = per_page.get(pi, 0) + 1
+    import math
+    try:
+        from rtflite.strwidth import get_string_width as _gsw
+    except Exception:
+        _gsw = None
+
+    def lines_of(row):
+        """Lines the row needs by the property's own oracle: max over its cells of ceil(W(text) / cell width), W at the cell's font size."""
+        if _gsw is None:
+            return 1
+        need, left = 1, 0
+        for c in row.cells:
+            width_in = (c.cellx - left) / 1440.0
+            left = c.cellx
+            if not c.text or width_in <= 0:
+                continue
+            try:
+                w = _gsw(c.text.split("\n")[0], font=(c.f or 0) + 1, font_size=(c.fs or 18) / 2, unit="in")
+            except Exception:
+                continue
+            need = max(need, int(math.ceil(w / width_in)))
+        return need
     for pi, p in enumerate(parsed.pages):
         n = len(p.rows)
         if per_page.get(pi, 0) <= 1:
             continue                      # a page always takes one data row, whatever the budget (the property speaks of pages that could have broken earlier)
+        used = sum(lines_of(r) for r in p.rows)
+        if used > nrow + slack and n <= nrow + slack:
+            bad.append(f"page {pi + 1} needs {used} lines ({n} table rows, some wrapping), nrow = {nrow}")
         if n > nrow + slack and n > 1:
             bad.append(f"page {pi + 1} has {n} table rows, nrow = {nrow}" + (" (+1 unreserved default header row, known finding)" if slack else ""))
     return bad
